@@ -330,7 +330,41 @@ def check_fastcc(ctx) -> None:
     for label, table in (("irreversible, reversible, blocked and one-directional reactions", FC_FULL), ("every reaction found by the sparse mode", FC_ALL_FOUND), ("no irreversible reaction", FC_NO_IRREVERSIBLE)):
         model = _fc_model(table)
         oracle: _Oracle = model.script
-        it = Interp(prog, NATIVE, ["cobra.flux_analysis.helpers.normalize_cutoff", "cobra.flux_analysis.fastcc._find_sparse_mode", "cobra.flux_analysis.fastcc._flip_coefficients"], {}, globals_={"Zero": Lin()})
+        def fva_in_fastcc(it_, ev, c, args, kwargs, _m=model, _t=table):
+            """A flux variability analysis called from fastcc poses, per requested reaction, one maximisation and one
+            minimisation of its flux on the model as it is at the call - under the restriction FVA always adds:
+            the model's objective held at fraction x optimum (also for fraction 0, unless the objective is empty)."""
+            f = prog.func("cobra.flux_analysis.variability", "flux_variability_analysis")
+            kw = dict(kwargs)
+            for p_, v_ in zip(f.params, args):
+                kw[p_] = v_
+            m = kw.get("model")
+            if m is not _m:
+                raise Unknown("flux_variability_analysis on a model other than the one fastcc works on")
+            form = Formulation(m)
+            restricted = list(_restricting(m, form))
+            obj = {v.name: k for v, k in Lin.of(m.solver.objective.expression).terms.items() if k}
+            if obj:
+                restricted.append(f"flux_variability_analysis holds the model's objective at {kw.get('fraction_of_optimum', 1.0)!r} x its optimum (an objective that can be negative cuts the cone even at fraction 0)")
+            if kw.get("loopless") or kw.get("pfba_factor") is not None:
+                restricted.append("loopless / total-flux cap")
+            ids = [getattr(r, "id", r) for r in (kw.get("reaction_list") if kw.get("reaction_list") is not None else m.reactions)]
+            lo, hi = [], []
+            for rid in ids:
+                _, mx, mn, _ = _t[rid]
+                # on a restricted cone the answer can be zero for a reaction that can carry flux: answer adversarially
+                a, b = ((0.0, 0.0) if restricted else (mn, mx))
+                oracle._note(rid, "max", b, restricted)
+                oracle._note(rid, "min", a, restricted)
+                if b:
+                    oracle.shown[rid] = b
+                elif a:
+                    oracle.shown[rid] = a
+                lo.append(a)
+                hi.append(b)
+            return Frame({"minimum": lo, "maximum": hi}, ids)
+
+        it = Interp(prog, NATIVE, ["cobra.flux_analysis.helpers.normalize_cutoff", "cobra.flux_analysis.fastcc._find_sparse_mode", "cobra.flux_analysis.fastcc._flip_coefficients"], {"cobra.flux_analysis.variability.flux_variability_analysis": fva_in_fastcc, "cobra.flux_analysis.flux_variability_analysis": fva_in_fastcc}, globals_={"Zero": Lin()})
         what = f"fastcc on a network with {label}"
         # solutions expose fluxes as a series
         orig_opt = model.optimize
